@@ -6,7 +6,7 @@ Contract (evaluated on the five public parse methods of a FRESH parser per call,
     raise mode:  outcome in { returns a Namespace, raises ArgumentError, SystemExit(0) iff argv asks for help/print_config }
     exit  mode:  outcome in { returns a Namespace, SystemExit(2) with 'usage:' and 'error:' on stderr,
                               SystemExit(0) iff argv asks for help/print_config }
-    both:        the call returns within the time limit (20 s)
+    both:        the call returns within the CPU-time limit (3 s quick / 10 s thorough; an ordinary call needs < 0.3 s, the slowest seen 1.3 s)
 
 The oracle is this table only - it never asks jsonargparse whether an input "should" fail; inputs are enumerated from a
 grammar of option names (known / unknown / malformed: dots, empty segments, '+' suffixes, sub-keys of class and dict
@@ -207,7 +207,7 @@ V_CLASS = [cp("Leaf"), "Leaf", "Base", "bounded.gen_f", cp("not_a_class"), cp("N
 V_PATHS = ["<missing>", "<dir>", "<empty>", "<binary>", "<nulfile>", "<selfalias>", "<good>", "<unreadable>", "/dev/null", "/", "a\x00b", "x" * 5000, "~", "~nouser/x", "./", "..",
            "file:///tmp", "http://localhost:1/x", "<dir>/", "<good>/x"]
 QUICK_VALUES = ["1", "abc", "", "null", "._", "{", "!!timestamp x", "&x [*x]", "-", "--", "\x00", '{"class_path": 1}', cp("Leaf"), "os", "<missing>", "<dir>", "=",
-                "a: 1\n b: 2", "[._]", "{a: !!bool x}"]
+                "a: 1\n b: 2", "[._]", "{a: !!bool x}", cp("Nope"), "nonexistent.Mod"]
 
 NAME_VARIANTS = ["--N", "--N.", "--N..", "--N.zzq", "--N..zzq", "--N+", "--N++", "--N+.x", "--N.init_args", "--N.init_args.", "--N.init_args.zzq", "--N.init_args.req",
                  "--N.class_path", "--N.dict_kwargs", "--N.dict_kwargs.k", "--N.dict_kwargs.", "--N.help", "--N.0", "--N.x", "--N.x.y", "--.N", "-N", "---N", "--N ", "--N\n",
@@ -379,6 +379,17 @@ def wants_exit0(argv):
     return False
 
 
+def scrub(x, tmp):
+    """The temporary directory of this run is written <tmp> in the recorded cases (see class Files for what the files contain)."""
+    if isinstance(x, str):
+        return x.replace(tmp, "<tmp>")
+    if isinstance(x, (list, tuple)):
+        return [scrub(y, tmp) for y in x]
+    if isinstance(x, dict):
+        return {k: scrub(v, tmp) for k, v in x.items()}
+    return x
+
+
 def verdict(eoe, r, argv):
     """The contract table.  Returns (kind, what, tag) for a violation, or (None, outcome class, '')."""
     if r["kind"] == "timeout":
@@ -423,7 +434,7 @@ LOADER_VALUES = V_SCALAR + V_BROKEN + V_TAGS   # their fate is mostly decided by
 # Self-referential MAPPINGS make `_apply_actions` loop without end (each such call costs the whole time limit), so the quick tier
 # uses them at a fixed, small set of places; the thorough tier uses them everywhere.
 SELFREF = {"&x {a: *x}", "&a {i: *a}", "selfref-dict"}
-QUICK_MALFORMED_VALUES = ["1", "", "._", "{", "!!timestamp x", cp("Leaf"), "<missing>", '{"class_path": 1}']
+QUICK_MALFORMED_VALUES = ["1", "", "._", "{", "!!timestamp x", cp("Leaf"), "<missing>", '{"class_path": 1}', "--"]
 QUICK_EXIT_VALUES = QUICK_VALUES + V_TAGS[:12] + ['[{"x": 1, "zz": 2}]', '{"x": 1, "zz": 2}', '{"k": {"x": "a"}}', '{"class_path": "calendar.Calendar", "init_args": {"zz": 1}}',
                                                 '{"class_path": "%s", "init_args": {"child": {"class_path": 1}}}' % cp("Sub"), '{"x": 1, "inner": {"zz": 1}}']
 THOROUGH_MALFORMED_VALUES = QUICK_VALUES + V_TAGS[:10]
@@ -511,7 +522,8 @@ class Ctx:
         case = dict(case, shape=self.shape + " (builder s_%s in bounded/b03_error_channel.py)" % self.shape, exit_on_error=self.eoe, method=method, input=canon)
         if argv is not None:
             case["argv"] = list(argv)
-        h.check(False, f"c03:{kind}:{tag}:{method}:{trig if trig is not None else canon}"[:149], f"{method}: {what}", case)
+        case = scrub(case, self.files.tmp)
+        h.check(False, f"c03:{kind}:{tag}:{method}:{trig if trig is not None else canon}"[:149], scrub(f"{method}: {what}", self.files.tmp), case)
 
     def args(self, canon, argv, case=None, trig=None):
         argv = list(argv)
@@ -531,7 +543,6 @@ def work(job):
             os.chdir(cwd)
             os.chmod(files.map["<unreadable>"], 0o600)
     c.h.stats["unstable"] = c.unstable
-    c.h.stats["max_cpu_s_of_a_finished_call"] = round(c.maxcpu, 2)
     return c.h
 
 
